@@ -626,6 +626,28 @@ func sortedIDs(m map[uint64]*consensus.Member) []uint64 {
 	return ids
 }
 
+func copyMembers(dst *Cluster, src *Cluster) {
+	for _, id := range sortedIDs(src.appliedMembers.MapByID) {
+		m := *src.appliedMembers.MapByID[id]
+		dst.appliedMembers.add(&m)
+		dst.members.add(&m)
+	}
+	// removed members in the order of removal does not matter for the id index; the name index keeps the last one added
+	for _, id := range sortedIDs(src.removedMembers.MapByID) {
+		m := *src.removedMembers.MapByID[id]
+		dst.removedMembers.add(&m)
+	}
+}
+
+func memberIDs(ms []*consensus.Member) []uint64 {
+	ids := make([]uint64, 0, len(ms))
+	for _, m := range ms {
+		ids = append(ids, m.ID)
+	}
+	sort.Slice(ids, func(i, j int) bool { return ids[i] < ids[j] })
+	return ids
+}
+
 func runSeq(c *c16Case) interface{} {
 	cl := mkCluster(nil, nil)
 	for _, a := range c.Applied {
@@ -633,28 +655,56 @@ func runSeq(c *c16Case) interface{} {
 		cl.appliedMembers.add(m)
 		cl.members.add(m)
 	}
+	lag := mkCluster(nil, nil) // the lagging follower: the cluster as it was at the last mark (request type 8)
+	copyMembers(lag, cl)
+	var everRemoved []*consensus.Member // every member a validated remove request took out, in this order
 	type step struct {
 		Code    int64    `json:"code"`
 		Applied []uint64 `json:"applied"`
 		Removed []uint64 `json:"removed"`
+		// snapshot round trips only
+		SnapM  []uint64 `json:"snapm,omitempty"` // ids listed in the snapshot data (members / removed members)
+		SnapR  []uint64 `json:"snapr,omitempty"`
+		LenM   int      `json:"lenm"` // sizes of the id-indexed maps when the snapshot was taken
+		LenR   int      `json:"lenr"`
+		Probe  []int64  `json:"probe,omitempty"`  // per ever-removed member: code of validateChangeMembership(AddNode, that member) on the recovered cluster
+		IsRem  []bool   `json:"isrem,omitempty"`  // per ever-removed member: IsIDRemoved on the recovered cluster
+		Probed []uint64 `json:"probed,omitempty"` // their ids
 	}
 	var steps []step
 	for _, r := range c.Reqs {
+		if r[0] == 8 {
+			lag = mkCluster(nil, nil)
+			copyMembers(lag, cl)
+			steps = append(steps, step{Code: 0, Applied: sortedIDs(cl.appliedMembers.MapByID), Removed: sortedIDs(cl.removedMembers.MapByID)})
+			continue
+		}
 		if r[0] == 9 {
-			// restart: snapshot data from the running cluster, Recover into a cluster that still has the
-			// initial configuration
+			// snapshot round trip: createSnapshotData of the running cluster, encode, decode + Recover into
+			// (r[1] = 0) a cluster that still has the initial configuration (restart), (1) an empty cluster,
+			// (2) the lagging follower
 			cs := &raftpb.ConfState{Nodes: sortedIDs(cl.appliedMembers.MapByID)}
 			blk := types.NewBlock(&types.BlockHeaderInfo{No: 1, Ts: 1, PrevBlockHash: make([]byte, 32), ChainId: []byte{1}}, make([]byte, 32), &types.Receipts{}, nil, nil, nil)
+			lenM, lenR := len(cl.appliedMembers.MapByID), len(cl.removedMembers.MapByID)
 			sd, err := (&ChainSnapshotter{}).createSnapshotData(cl, blk, cs)
 			if err != nil {
 				panic(err)
 			}
 			data, _ := sd.Encode()
+			var dec consensus.SnapshotData
+			if err := dec.Decode(data); err != nil {
+				panic(err)
+			}
 			stale := mkCluster(nil, nil)
-			for _, a := range c.Applied {
-				m := mkMemberP(a)
-				stale.appliedMembers.add(m)
-				stale.members.add(m)
+			switch r[1] {
+			case 0:
+				for _, a := range c.Applied {
+					m := mkMemberP(a)
+					stale.appliedMembers.add(m)
+					stale.members.add(m)
+				}
+			case 2:
+				copyMembers(stale, lag)
 			}
 			eq, err := stale.Recover(&raftpb.Snapshot{Data: data})
 			code := int64(0)
@@ -664,7 +714,16 @@ func runSeq(c *c16Case) interface{} {
 				code = 10
 			}
 			cl = stale
-			steps = append(steps, step{code, sortedIDs(cl.appliedMembers.MapByID), sortedIDs(cl.removedMembers.MapByID)})
+			st := step{Code: code, Applied: sortedIDs(cl.appliedMembers.MapByID), Removed: sortedIDs(cl.removedMembers.MapByID),
+				SnapM: memberIDs(dec.Members), SnapR: memberIDs(dec.RemovedMembers), LenM: lenM, LenR: lenR}
+			for _, old := range everRemoved {
+				m := *old
+				cc := &raftpb.ConfChange{Type: raftpb.ConfChangeAddNode, NodeID: m.ID}
+				st.Probe = append(st.Probe, valCode(cl.validateChangeMembership(cc, &m, true)))
+				st.IsRem = append(st.IsRem, cl.IsIDRemoved(m.ID))
+				st.Probed = append(st.Probed, m.ID)
+			}
+			steps = append(steps, st)
 			continue
 		}
 		m := mkMemberP(r[1:])
@@ -677,12 +736,18 @@ func runSeq(c *c16Case) interface{} {
 					code = 98
 				}
 			} else {
+				var full consensus.Member
+				if am := cl.appliedMembers.MapByID[m.ID]; am != nil {
+					full = *am
+				}
 				if e := cl.removeMember(m); e != nil {
 					code = 98
+				} else {
+					everRemoved = append(everRemoved, &full)
 				}
 			}
 		}
-		steps = append(steps, step{code, sortedIDs(cl.appliedMembers.MapByID), sortedIDs(cl.removedMembers.MapByID)})
+		steps = append(steps, step{Code: code, Applied: sortedIDs(cl.appliedMembers.MapByID), Removed: sortedIDs(cl.removedMembers.MapByID)})
 	}
 	return map[string]interface{}{"steps": steps}
 }
